@@ -102,6 +102,7 @@ static int gbuf_ok(const CH *b, size_t n) {
 #include "drv_escape.inc"
 #ifndef DRV_ONLY_ESCAPE
 #include "drv_uri.inc"
+#include "drv_query.inc"
 #endif
 
 int main(void) {
@@ -117,6 +118,7 @@ int main(void) {
 		else if (!strcmp(op, "unesc")) op_unesc();
 #ifndef DRV_ONLY_ESCAPE
 		else if (dispatch_uri(op)) {}
+		else if (dispatch_query(op)) {}
 #endif
 		else printf("?unknown-op %s", op);
 		putchar('\n');
